@@ -129,7 +129,7 @@ Section NF.
 
   Theorem expand_top_enough e w m : R (expand_top users glob e w m).
   Proof.
-    unfold expand_top. assert (H1 : R (expand users (4 * S (ws w)) e w m)) by (apply (proj1 (enough (4 * S (ws w)))); lia).
+    unfold expand_top. destruct (quoted_at_only e w m); [exact I|]. assert (H1 : R (expand users (4 * S (ws w)) e w m)) by (apply (proj1 (enough (4 * S (ws w)))); lia).
     destruct (expand users (4 * S (ws w)) e w m) as [[e1 fields]|[e1 x]| |]; cbn [R] in *; try exact I; try contradiction.
     destruct (mbit m mLiteral); [exact I|]. destruct (mbit m mPattern); [exact I|].
     match goal with |- R (match fold_left ?st ?l ?acc with _ => _ end) => assert (EF : R (fold_left st l acc)) end.
